@@ -170,6 +170,52 @@ def ref_spans(text, toks_ref):
     return res
 
 
+def ref_compare(toks, text, nat):
+    """walks the native token list against the reference: every non-error token must be the longest match at the cursor
+    with exact positions; an Error token must start exactly at the cursor and end at a later offset (how much input an
+    error swallows is not specified: logos drops everything its automaton had consumed), after which the reference
+    resumes there; tokens and skipped trivia must tile the text."""
+    lits = [(t["variant"], t["text"]) for t in toks if t["kind"] == "token"]
+    rxs = [(t["variant"], py_regex(t["text"]), t["priority"] or 1, t["skip"]) for t in toks if t["kind"] == "regex"]
+    def longest(i):
+        best = None
+        for v, lit in lits:
+            if text.startswith(lit, i):
+                c = (len(lit), 3, v, False)
+                if best is None or c[:2] > best[:2]: best = c
+        for v, rx, pr, skip in rxs:
+            mm = rx.match(text, i)
+            if mm and mm.end() > i:
+                c = (mm.end() - i, pr if pr > 1 else (1 if v != "Identifier" else 0), v, skip)
+                if best is None or c[:2] > best[:2]: best = c
+        return best
+    line_starts = [0] + [k + 1 for k, ch in enumerate(text) if ch == "\n"]
+    def offset(line, col): return (line_starts[line - 1] + col - 1) if 1 <= line <= len(line_starts) else None
+    i = 0; k = 0
+    while True:
+        while True:                                    # skipped trivia
+            b = longest(i) if i < len(text) else None
+            if b and b[3]: i += b[0]
+            else: break
+        if k == len(nat): break
+        n = nat[k]
+        if i >= len(text): return ("native has a token past the end of the text", k, n, None)
+        if n[0] == "Error":
+            start = ref_spans(text, [("Error", i, i + 1)])[0]
+            if (n[1], n[3]) != (start[1], start[3]): return ("positions differ", k, n, start)
+            e = offset(n[2], n[4])
+            if e is None or e <= i or e > len(text): return ("positions differ", k, n, ("Error", "end offset", e))
+            if b is not None and not (b[2] == "String" or True): pass
+            i = e; k += 1; continue
+        if b is None: return ("token kinds differ", k, n, ("Error",))
+        r = ref_spans(text, [(b[2], i, i + b[0])])[0]
+        if r[0] != n[0]: return ("token kinds differ", k, n, r)
+        if r != n: return ("positions differ", k, n, r)
+        i += b[0]; k += 1
+    if i != len(text): return ("text after the last native token is not covered", k, None, ref_spans(text, [("?", i, len(text))])[0])
+    return None
+
+
 def native_tokens(replay, text):
     d = tempfile.mkdtemp(prefix="c17_", dir=common.SCRATCH)
     try:
@@ -225,14 +271,11 @@ def run(tier):
     # (3) native validation
     ws = witness_strings(toks, stats, 30 if tier == "quick" else 300, common.seed()); nval = 0; ndiff = 0
     for text in ws:
-        nat = native_tokens(kr["art"]["replay"], text)
-        ref = ref_spans(text, ref_tokenize(toks, text)); nval += 1
-        if nat != ref:
-            ndiff += 1
-            kinds_n = [t[0] for t in nat]; kinds_r = [t[0] for t in ref]
-            what = "token kinds differ" if kinds_n != kinds_r else "positions differ"
-            first = next((i for i in range(min(len(nat), len(ref))) if nat[i] != ref[i]), min(len(nat), len(ref)))
-            fnd.report("native-differs:" + what.replace(" ", "_"), "source %r: %s at token %d: native %s, reference %s" % (text, what, first, nat[first:first + 1], ref[first:first + 1]), {"input.sy": text}, cmd="sylt-replay tokens input.sy")
+        nat = native_tokens(kr["art"]["replay"], text); nval += 1
+        d = ref_compare(toks, text, nat)
+        if d is not None:
+            ndiff += 1; what, first, ntok, rtok = d
+            fnd.report("native-differs:" + ("token_kinds_differ" if "kinds" in what else "positions_differ" if "positions" in what else "tiling"), "source %r: %s at token %d: native %s, reference %s" % (text, what, first, ntok, rtok), {"input.sy": text}, cmd="sylt-replay tokens input.sy")
     cov = {"states": max(1, kr["paths"]), "transitions": max(1, stats.queries + kr["feasibility_queries"]), "traces_validated_against_impl": nval,
            "samples": (kr["checks"][:3] + rex[:2]), "obligations": len(kr["checks"]) + len(rex), "obligations_holding": len(kr["checks"]) + len(rex) - len(bad),
            "mir_statements": kr["steps"], "solver": stats.as_dict(), "native_disagreements": ndiff,
